@@ -255,7 +255,7 @@ type c18Ctl struct {
 }
 
 const c18ParkWait = 40 * time.Millisecond // a step the locks make infeasible is given up after this
-const c18Long = 3 * time.Second
+const c18Long = 20 * time.Second
 
 // run drives the two failure threads (index 0 = peer names[0], 1 = names[1]) according to word.
 func (ctl *c18Ctl) run(names []string, word string) {
@@ -276,7 +276,11 @@ func (ctl *c18Ctl) run(names []string, word string) {
 			ctl.timeout = true
 		}
 	}
-	step := func(t int) {
+	// step gives thread t its next step: leave the mock's Send and run up to the ":read" point (R),
+	// or leave the ":read" point and run to the end of ReportFailure (W). A thread that does not reach
+	// the ":read" point in time is blocked by the lock (the repaired code holds it across the point):
+	// the step is then infeasible and skipped, the thread catches up as soon as it can.
+	step := func(t int, patient bool) {
 		switch state[t] {
 		case 0:
 			close(ctl.gates[names[t]])
@@ -287,14 +291,21 @@ func (ctl *c18Ctl) run(names []string, word string) {
 				state[t] = 1
 			}
 		case 1:
+			wait := c18ParkWait
+			if patient {
+				wait = c18Long
+			}
 			select {
 			case ch := <-ctl.arrived:
 				close(ch)
 				waitWritten()
-			case <-time.After(c18Long):
-				ctl.timeout = true
+				state[t] = 4
+			case <-time.After(wait):
+				if patient {
+					ctl.timeout = true
+					state[t] = 4
+				}
 			}
-			state[t] = 4
 		case 2:
 			close(park[t])
 			waitWritten()
@@ -304,19 +315,19 @@ func (ctl *c18Ctl) run(names []string, word string) {
 	for _, ch := range word {
 		t := int(ch - 'a')
 		if t >= 0 && t < len(names) {
-			step(t)
+			step(t, false)
 		}
 	}
-	for round := 0; round < 2; round++ {
+	// let everybody finish: a parked thread first, it may hold the lock another one waits for
+	for round := 0; round < 3; round++ {
 		for t := range names {
-			// a parked thread first: it may hold the lock another one waits for
 			if state[t] == 2 {
-				step(t)
+				step(t, true)
 			}
 		}
 		for t := range names {
-			if state[t] != 4 {
-				step(t)
+			if state[t] != 4 && state[t] != 2 {
+				step(t, true)
 			}
 		}
 	}
@@ -610,7 +621,7 @@ func c18Random(r *verifRng, alg string, l int) c18Hist {
 		case x < 9:
 			h.evs = append(h.evs, c18Event{kind: 'T', fails: randFails()})
 		default:
-			if r.intn(6) == 0 {
+			if r.intn(10) == 0 {
 				h.evs = append(h.evs, c18Event{kind: 'X'})
 				for i := range up {
 					up[i] = false
@@ -654,7 +665,7 @@ func c18Directed(alg string, l int, emit func(c18Hist)) {
 		c18Event{kind: 'T'})
 	emit(h)
 	// a relay: received from peer 1 (copies as announced), foreign peers around, failures, restart
-	for _, k := range []int{1, 2, l, 2*l + 1} {
+	for i, k := range []int{2*l + 1, 1, 2, l} {
 		kk := k
 		if alg == "spray" {
 			kk = -1
@@ -662,7 +673,12 @@ func c18Directed(alg string, l int, emit func(c18Hist)) {
 		h = c18Hist{alg: alg, l: l, n: 5, evs: []c18Event{{kind: 'U', peer: 1}, {kind: 'U', peer: 2},
 			{kind: 'R', k: kk, prev: 1, fails: []int{2}}, {kind: 'T'}, {kind: 'U', peer: 3, fails: []int{3}},
 			{kind: 'U', peer: 4}, {kind: 'T'}, {kind: 'U', peer: 0, fails: []int{0}}, {kind: 'T', fails: []int{0}},
-			{kind: 'D', peer: 0}, {kind: 'T'}, {kind: 'X'}, {kind: 'U', peer: 3}, {kind: 'U', peer: 0}}}
+			{kind: 'D', peer: 0}, {kind: 'T'}}}
+		if i == 0 {
+			h.evs = append(h.evs, c18Event{kind: 'X'}, c18Event{kind: 'U', peer: 3}, c18Event{kind: 'U', peer: 0})
+		} else {
+			h.evs = append(h.evs, c18Event{kind: 'U', peer: 0})
+		}
 		emit(h)
 		if alg == "spray" {
 			break
@@ -844,33 +860,41 @@ func TestVerifC18(t *testing.T) {
 			submit := []c18Event{{kind: 'S'}}
 			var recv []c18Event
 			if alg == "binary" {
-				recv = []c18Event{{kind: 'R', k: -1, prev: -1}}
+				if l == 3 || thorough {
+					recv = append(recv, c18Event{kind: 'R', k: -1, prev: -1}) // no block: treated as originated
+				}
 				if l == 2 || thorough { // the copies of a received bundle do not depend on L
-					for _, k := range []int{0, 1, 2, 3, 5} {
+					ks := []int{1, 2, 3}
+					if thorough {
+						ks = []int{0, 1, 2, 3, 4, 5, 8}
+					}
+					for _, k := range ks {
 						recv = append(recv, c18Event{kind: 'R', k: k, prev: -1})
 					}
-					recv = append(recv, c18Event{kind: 'R', k: 4, prev: 1})
+					recv = append(recv, c18Event{kind: 'R', k: 5, prev: 1})
 				}
-			} else {
+			} else if l == 2 || thorough {
 				recv = []c18Event{{kind: 'R', k: -1, prev: -1}, {kind: 'R', k: -1, prev: 1}}
 			}
 			switch {
-			case thorough && l <= 4:
-				c18Exhaustive(alg, l, 3, 4, submit, true, add)
-				c18Exhaustive(alg, l, 3, 3, recv, true, add)
+			case thorough && l <= 3:
+				c18Exhaustive(alg, l, 3, 3, submit, true, add)
+				c18Exhaustive(alg, l, 3, 2, recv, true, add)
 			case thorough:
-				c18Exhaustive(alg, l, 3, 3, append(submit, recv...), true, add)
+				c18Exhaustive(alg, l, 3, 2, append(submit, recv...), l == 4, add)
 			case l <= 3 || (alg == "binary" && l == 4):
-				c18Exhaustive(alg, l, 3, 2, append(submit, recv...), true, add)
+				// (a restart costs as much as fifty other events: only where the budget is tight)
+				c18Exhaustive(alg, l, 3, 2, submit, l == 2, add)
+				c18Exhaustive(alg, l, 3, 2, recv, false, add)
 			default:
 				c18Exhaustive(alg, l, 2, 2, submit, false, add)
 			}
 			counts["exhaustive"] += len(hists)
 			// random part: 0..6 peers, longer histories
 			r := &verifRng{s: seed*1000003 + uint64(l)*7919 + uint64(len(alg))}
-			nr := 30
+			nr := 20
 			if thorough {
-				nr = 1500
+				nr = 500
 			}
 			for i := 0; i < nr; i++ {
 				add(c18Random(r, alg, l))
@@ -880,7 +904,7 @@ func TestVerifC18(t *testing.T) {
 			c18Directed(alg, l, add)
 			counts["directed"] += len(hists) - before
 			for len(hists) > 0 {
-				n := 100
+				n := 60
 				if n > len(hists) {
 					n = len(hists)
 				}
@@ -890,6 +914,7 @@ func TestVerifC18(t *testing.T) {
 		}
 	}
 
+	tStart := time.Now()
 	var wg sync.WaitGroup
 	var notesMu sync.Mutex
 	var notes []string
@@ -923,6 +948,7 @@ func TestVerifC18(t *testing.T) {
 		}(ji, j)
 	}
 	wg.Wait()
+	tParallel := time.Since(tStart)
 
 	// forced interleavings: the schedule hook is a package-level variable, so these run alone
 	for l := 3; l <= 8; l++ {
@@ -949,6 +975,8 @@ func TestVerifC18(t *testing.T) {
 	}
 	sort.Strings(cs)
 	write([]string{"# c18 histories: " + strings.Join(cs, " ") + fmt.Sprintf(" seed=%d", seed)})
+	write([]string{fmt.Sprintf("# c18 timing: %d worlds in parallel %.1fs, forced interleavings %.1fs", len(jobs),
+		tParallel.Seconds(), (time.Since(tStart) - tParallel).Seconds())})
 	sort.Strings(notes)
 	for i, n := range notes {
 		if i < 10 {
